@@ -10,14 +10,14 @@ Variable R : G.
 Hypothesis HG : GoodB R.
 
 (* the body of expr_bp once its marker exists *)
-Lemma expr_bp_core m ps bp own Lb b0 V s :
-  St (m :: own) Lb b0 V s ->
+Lemma expr_bp_core m ps bp own Lb b0 V W s :
+  St [] (m :: own) Lb b0 V W s ->
   WB (expr_bp inp R (Some m) ps bp)
-     (fun r s' => St own Lb b0 V s' /\ (forall i, Valid s i -> Valid s' i) /\ m <= nev s' /\
+     (fun r s' => St [] own Lb b0 V W s' /\ (forall i, Valid s i -> Valid s' i) /\ m <= nev s' /\
                   match r with Some (cm, _) => Valid s' (fst cm) /\ m <= fst cm | None => True end) s.
 Proof.
   intros HS.
-  assert (m < nev s) as Hlt by (apply (st_own_lower _ _ _ _ _ _ HS); left; reflexivity).
+  assert (m < nev s) as Hlt by (apply (st_own_lower _ _ _ _ _ _ _ _ HS); left; reflexivity).
   assert (Hc0 : forall i, Valid s i -> Valid s i) by (intros ? Hq; exact Hq).
   unfold expr_bp. apply WB_bind, WB_ret. bgo.
   - split; [assumption|lia].
@@ -39,7 +39,7 @@ Qed.
 Lemma expr_bp_none_B ps bp : SpecA (expr_bp inp R None ps bp) ResOCmB.
 Proof.
   b_enter. unfold expr_bp. apply WB_bind. b_start.
-  eapply WB_conseq; [pose proof (expr_bp_core m ps bp _ _ _ _ _ HS) as Hcore; unfold expr_bp in Hcore; exact Hcore|].
+  eapply WB_conseq; [pose proof (expr_bp_core m ps bp _ _ _ _ _ _ HS) as Hcore; unfold expr_bp in Hcore; exact Hcore|].
   intros r s' [HS' [Hc [Hn Hr]]]. split; [apply st_exit; assumption|].
   destruct r as [[cm b]|]; [|exact I]. destruct Hr as [Hr1 Hr2]. split; [assumption|cbn [fst]; lia].
 Qed.
